@@ -18,7 +18,7 @@ RULE = ("schedule exploration with real threads: for ordered pairs (A, B) of cal
         "CACHE_SIZE_LIMIT, relative phrase, search_dates in two languages, a shared long-lived DateDataParser, a Jalali call, a "
         "call that raises SettingValidationError, the default-settings call), thread A is pre-empted once when about to execute "
         "its k-th library line (sys.monitoring LINE), B runs to completion or until it blocks, A resumes. quick: per pair and "
-        "direction the first k of every distinct (file, line) location (cap 250) + 50 seeded random k; thorough: every k. Plus "
+        "direction the first k of every distinct (file, line) location (seeded sample of 140 when there are more) + 30 seeded random k; thorough: every k. Plus "
         "free-running stress (8 threads x random pool calls, switch interval 1 us, seeded yield injection) and cold-start rounds "
         "(fresh interpreters whose very first library calls are made by 8 threads released by a barrier). Oracle: each call's outcome equals its "
         "fresh-process sequential outcome. non-trivial distinct = distinct realised schedules (pair, direction, k) + stress rounds.")
@@ -26,7 +26,7 @@ ASSUMPTIONS = ["exactly one pre-emption per controlled schedule, at line granula
                "calls or between bytecodes of one line are not explored); the stress part adds uncontrolled multi-switch runs",
                "sequential reference = the call made alone in a pristine process (as in C03)"]
 TIMEOUT = {"quick": 900, "thorough": 5400}
-MAX_WORKERS = 12
+MAX_WORKERS = 16
 ANCHORS = [("dateparser.conf", "Settings.__init__"), ("dateparser.date", "_DateLocaleParser._try_parser"),
            ("dateparser.languages.locale", "Locale._get_dictionary"), ("dateparser.languages.dictionary", "Dictionary._add_to_cache"),
            ("dateparser.search.search", "_ExactLanguageSearch.search")]
@@ -61,10 +61,19 @@ POOL = [
     mk("region_gb", "ddp", "02/03/2015", None, langs=["en"], region="GB"), mk("loc_ca", "ddp", "3 mth ago", None, locales=["en-CA"]),
     mk("hijri", "hijri", "1437/05/13", None), mk("search_auto", "search", "Meeting on 02/03/2015 at 10:45", None, adl=True),
     mk("multi", "ddp", "02/03/2015", None, langs=["fr", "en"], ugo=True),
+    # search_dates does some work before it reaches the library's lock (text preprocessing, per-language preparation):
+    # texts without digits, a Russian text with the 'с <number>' range form, an autodetected text without digits
+    mk("en_skipfoo", "parse", "foo 12 May 2015", "en", {"SKIP_TOKENS": ["foo"]}),    # parses only because of its SKIP_TOKENS
+    mk("fr_skip_nonorm", "parse", "bar 12 février 2015", "fr", {"SKIP_TOKENS": ["bar"], "NORMALIZE": False}),
+    mk("search_en_words", "search", "It happened yesterday and again on Monday", "en", adl=False),
+    mk("search_ru_range", "search", "Это было с 12 января по 30 апреля 2021", "ru", adl=False),
+    mk("search_de_words", "search", "Es war gestern und vorgestern", "de", adl=True),
+    mk("search_auto_words", "search", "We met yesterday, then last week", None, adl=True),
 ]
 for _i, _c in enumerate(POOL):
     _c["id"] = _i
 BY = {c["name"]: c for c in POOL}
+FAST_POOL = [c for c in POOL if not c["name"].startswith("search_auto")]   # stress/cold rounds: without language autodetection
 PAIRS = [("fr_num", "en_num"), ("en_num", "en_dmy"), ("fr_num", "default"), ("en_past", "en_future"), ("en_tz", "en_tz2"),
          ("fr_nonorm", "fr_norm"), ("en_skip", "en_noskip"), ("rel_en", "rel_de"), ("rel_en", "en_num"),
          ("search_fr", "search_en"), ("search_en", "inst_en"), ("inst_en", "inst_en2"), ("inst_en", "fr_num"),
@@ -72,7 +81,11 @@ PAIRS = [("fr_num", "en_num"), ("en_num", "en_dmy"), ("fr_num", "default"), ("en
          ("search_fr", "fr_num"), ("en_num", "en_num"), ("fr_num", "fr_num"), ("search_en", "search_en"),
          ("en_dmy", "fr_num"), ("default", "en_dmy"), ("en_tz", "fr_nonorm"),
          ("fmt_en", "en_num"), ("fmt_fr", "fr_num"), ("region_gb", "en_num"), ("loc_ca", "rel_en"), ("hijri", "jalali"),
-         ("search_auto", "fr_num"), ("multi", "en_dmy"), ("region_gb", "multi")]
+         ("search_auto", "fr_num"), ("multi", "en_dmy"), ("region_gb", "multi"),
+         ("en_skip", "search_en_words"), ("en_noskip", "search_en_words"), ("search_ru_range", "search_en"),
+         ("search_ru_range", "search_fr"), ("search_de_words", "rel_de"), ("search_auto_words", "en_skip"),
+         ("search_en_words", "search_ru_range"), ("en_skipfoo", "search_en_words"), ("en_skipfoo", "en_num"),
+         ("fr_skip_nonorm", "search_fr"), ("en_skipfoo", "search_en")]
 
 
 def shards(tier, seed):
@@ -86,7 +99,7 @@ def shards(tier, seed):
         out.append({"part": "pair", "a": a, "b": b, "refs": refs, "i": i})
     out.append({"part": "stress", "refs": refs, "rounds": 4 if tier == "quick" else 20})
     # cold start: each shard is a fresh interpreter whose very first library calls are made by 8 threads at once
-    for j in range(6 if tier == "quick" else 40):
+    for j in range(4 if tier == "quick" else 40):
         out.append({"part": "cold", "refs": refs, "j": j})
     return out
 
@@ -126,9 +139,24 @@ def run_pair(ctx, desc):
                 for idx, loc in enumerate(locs):
                     first.setdefault(loc, idx + 1)
                 ks = sorted(first.values())
-                if len(ks) > 250:
-                    ks = sorted(rnd.sample(ks, 250))
-                ks = sorted(set(ks) | set(rnd.randrange(1, L + 1) for _ in range(50)))
+                slow = na.startswith("search_auto") or nb.startswith("search_auto")   # language autodetection: ~0.3 s per call
+                # when B does work before it reaches the library's lock (search_dates does), every location of A matters;
+                # otherwise B simply waits while A holds the lock and a seeded sample of A's locations is enough
+                cap, extra = (30, 8) if slow else ((100000, 30) if cb["api"] == "search" else (140, 30))
+                if len(ks) > cap:
+                    ks = sorted(rnd.sample(ks, cap))
+                ks = set(ks) | set(rnd.randrange(1, L + 1) for _ in range(extra))
+                # the stretches of A that run outside the lock (before it is taken, after it is released) are where two
+                # calls really overlap: every k from the start until B first has to wait, and from the end likewise
+                probe_cap = 40 if slow else 400
+                for rng_k in (range(1, min(L, probe_cap) + 1), range(L, max(0, L - probe_cap // 2), -1)):
+                    for k in rng_k:
+                        r0 = sched.schedule(fa, fb, k)
+                        ks.add(k)
+                        if r0["hung"] or (r0["fired"] and r0["blocked"]):
+                            break
+                        ctx.count("outside_lock_probe_schedules")
+                ks = sorted(ks)
             ctx.count("lines_in_A:%s" % na, L)
             seen_locs = set()
             for k in ks:
@@ -220,7 +248,7 @@ def run_stress(ctx, desc):
             def worker(wi):
                 r = random.Random(ctx.seed * 1000 + rnd_i * 10 + wi)
                 for _ in range(150):
-                    c = r.choice(POOL)
+                    c = r.choice(FAST_POOL)
                     out = C.execute(c, insts)
                     with lock:
                         results.append((c["name"], out))
@@ -260,10 +288,10 @@ def run_cold(ctx, desc):
     refs = desc["refs"]
     insts = {}
     r = random.Random(ctx.seed * 7919 + desc["j"])
-    plan = [[r.choice(POOL) for _ in range(6)] for _ in range(8)]
+    plan = [[r.choice(FAST_POOL) for _ in range(6)] for _ in range(8)]
     if desc["j"] % 2 == 0:
         # every thread starts with the same call: concurrent first load of one language
-        first = r.choice(POOL)
+        first = r.choice(FAST_POOL)
         for pl in plan:
             pl[0] = first
     barrier = threading.Barrier(8)
@@ -337,7 +365,7 @@ def finalize(merged, tier, seed):
         inc.append("only %d schedules realised" % c.get("schedules_realised", 0))
     if c.get("stress_calls", 0) < 2000:
         inc.append("stress part ran only %d calls" % c.get("stress_calls", 0))
-    if c.get("cold_start_calls", 0) < 200:
+    if c.get("cold_start_calls", 0) < 150:
         inc.append("cold-start part ran only %d calls" % c.get("cold_start_calls", 0))
     return {"inconclusive": inc, "anchors_hit": {k[7:]: v for k, v in c.items() if k.startswith("anchor:")},
             "schedules_realised": c.get("schedules_realised", 0), "schedules_in_which_B_blocked": c.get("schedules_B_blocked", 0),
